@@ -1,4 +1,4 @@
-"""C02: a comment between the two tokens that make up a pseudo-class
+"""C02 (the @page part of h2-bug2; cssutils/tests/test_csspagerule.py pins the SyntaxErr of the raising mode, so not repaired): a comment between the two tokens that make up a pseudo-class
 (':' IDENT), a class ('.' IDENT), a qualified name (prefix '|' name) or a page
 pseudo (':' first) is not "just a comment": with parseComments=True the rule is
 dropped or - worse - silently gets another meaning, with parseComments=False the
@@ -38,15 +38,7 @@ def shape(text, **kw):
 
 
 cases = [
-    'a:/**/hover{top:0}',
-    './**/b{top:0}',
-    'a::/**/after{top:0}',
-    'a:/**/nth-child(2){top:0}',
-    'a:/**/not(.b){top:0}',
-    '@namespace p "urn:x";p/**/|a{top:0}',
-    '@namespace p "urn:x";p|/**/a{top:0}',      # silently: a in NO namespace binding
-    '@namespace p "urn:x";[p|/**/a]{top:0}',    # silently: attribute without namespace
-    '*|/**/*{top:0}',
+    '@page :/**/first{top:0}',                  # silently: a page NAMED first
 ]
 failures = []
 for text in cases:
